@@ -270,6 +270,17 @@ def perturbed(c, rec):
     dyn2 = SpecialPerturbations(datetimeToJulianDate(t - timedelta(seconds=sh)), geo, per, 0.02, method=c["method"])
     shifted = dyn2.propagate(t0 + sh, t0 + sh + dur, x0.copy())
     _cmp("sp_epoch_split", shifted, full, rec, scale, f"same absolute epoch split differently between start date and elapsed seconds (shift {sh}s at {c['t']})")
+    # the same statement one level down, where no integrator tolerance blurs it: the acceleration of a state is a function of the
+    # absolute epoch.  (The two splits give Julian dates that differ by up to 4e-5 s, i.e. 3e-9 rad of Earth rotation: 3e-14 km/s^2
+    # on the oblateness term if the epoch were used as is - the reduction rounds it to the whole second, observed 1e-18; 1e-14 is allowed.  The Sun moves 1 deg per day: a term evaluated at the start epoch instead of
+    # the current one differs by 1e-12 km/s^2 and more for shifts of a day.)
+    for te in (t0, t0 + dur):
+        a1 = np.asarray(dyn._differentialEquation(te, x0.copy(), check_collision=False), dtype=float)[3:]
+        a2 = np.asarray(dyn2._differentialEquation(te + sh, x0.copy(), check_collision=False), dtype=float)[3:]
+        da = float(np.linalg.norm(a1 - a2))
+        rec.err("sp_epoch_split_acceleration_kms2", da)
+        if da > 1e-14:
+            raise Violation("sp_epoch_split_acceleration", f"acceleration of the same state at the same absolute epoch differs by {da:.3e} km/s^2 between start {c['t']} + {te}s and start-{sh}s + {te + sh}s (deg {c['deg']}, {c['bodies']}, srp={c['srp']}, gr={c['gr']})")
     if k >= 2:
         batch = [x0] + [x0 + np.array([3.0 * j, -2.0 * j, 1.0 * j, 1e-3 * j, 2e-3 * j, -1e-3 * j]) for j in range(1, k)]
         out = dyn.propagate(t0, t0 + dur, np.column_stack(batch).copy())
